@@ -66,15 +66,10 @@ theorem isOk_val? {r : Outcome Val} : r.isOk = r.val?.isSome := by cases r <;> r
 
 /-! ### alternatives, their classes and their methods, in step -/
 
-/-- what the three dispatch lemmas need about one compiled alternative -/
-structure AltOk (o : DOpts) (cs : Constraints) (t : Ty) : Prop where
-  nc : NC (compile o cs t)
-  acc : ∀ d, d.wf = true → (run (compile o cs t) d).isOk = conforms o.additionalProperties false cs t d
-  inAcc : t.acc = true
-
-theorem altOk (o : DOpts) (ho : OptsOk o) (cs : Constraints) (hu : cs.unique = false) (t : Ty)
-    (ha : t.acc = true) (hn : t.nouq = true) : AltOk o cs t :=
-  ⟨(no_crash o ho).1 cs t ha hn hu, (accepts_iff_conforms o ho).1 cs t ha, ha⟩
+/-- what the dispatch lemmas need about one compiled alternative, *at one datum* -/
+structure AltAt (o : DOpts) (cs : Constraints) (t : Ty) (d : Py) : Prop where
+  nc : (run (compile o cs t) d).isCrash = false
+  acc : (run (compile o cs t) d).isOk = conforms o.additionalProperties false cs t d
 
 /-- a type that is `float` behind NewTypes / annotations has factory class `float` -/
 theorem factoryCls_of_not_noFloat : ∀ (t : Ty), t.noFloat = false → t.factoryCls = some .float
@@ -92,16 +87,16 @@ theorem mem_clsL : ∀ {ts : List Ty} {t : Ty}, t ∈ ts → t.factoryCls ∈ cl
     · exact List.mem_cons_self ..
     · exact List.mem_cons_of_mem _ (mem_clsL h')
 
-theorem any_compileL {o : DOpts} {cs : Constraints} : ∀ (ts : List Ty) (d : Py), d.wf = true →
-    (∀ t ∈ ts, AltOk o cs t) →
+theorem any_compileL {o : DOpts} {cs : Constraints} : ∀ (ts : List Ty) (d : Py),
+    (∀ t ∈ ts, AltAt o cs t d) →
     (compileL o cs ts).any (fun m => (run m d).isOk) = conformsAny o.additionalProperties false cs ts d
-  | [], d, _, _ => by rw [compileL, conformsAny]; rfl
-  | t :: ts, d, hw, h => by
-    rw [compileL, conformsAny, List.any_cons, (h t (List.mem_cons_self ..)).acc d hw,
-      any_compileL ts d hw (fun t' ht' => h t' (List.mem_cons_of_mem _ ht'))]
+  | [], d, _ => by rw [compileL, conformsAny]; rfl
+  | t :: ts, d, h => by
+    rw [compileL, conformsAny, List.any_cons, (h t (List.mem_cons_self ..)).acc,
+      any_compileL ts d (fun t' ht' => h t' (List.mem_cons_of_mem _ ht'))]
 
-theorem nc_compileL {o : DOpts} {cs : Constraints} : ∀ (ts : List Ty), (∀ t ∈ ts, AltOk o cs t) →
-    ∀ m ∈ compileL o cs ts, NC m
+theorem nc_compileL {o : DOpts} {cs : Constraints} {d : Py} : ∀ (ts : List Ty), (∀ t ∈ ts, AltAt o cs t d) →
+    ∀ m ∈ compileL o cs ts, (run m d).isCrash = false
   | [], _, m, hm => by rw [compileL] at hm; cases hm
   | t :: ts, h, m, hm => by
     rw [compileL] at hm
@@ -116,16 +111,17 @@ theorem clsL_length : ∀ ts, (clsL ts).length = ts.length
   | [] => by rw [clsL]; rfl
   | t :: ts => by rw [clsL, List.length_cons, List.length_cons, clsL_length ts]
 
-/-- the by-type table built from the alternatives: classes in step with methods, sound at every well-formed datum -/
-theorem table_spec {o : DOpts} (ho : OptsOk o) {cs : Constraints} : ∀ (ts : List Ty) (known : List JClass),
-    clsL ts = known.map some → (∀ t ∈ ts, AltOk o cs t ∧ t.noFloat = true) →
+/-- the by-type table built from the alternatives: classes in step with methods, sound at the datum (an accepted datum
+    conforms, and conforming data have the JSON class of the type: `conforms_class`) -/
+theorem table_spec {o : DOpts} {cs : Constraints} {d : Py} : ∀ (ts : List Ty) (known : List JClass),
+    clsL ts = known.map some → (∀ t ∈ ts, AltAt o cs t d ∧ t.noFloat = true) →
     (known.zip (compileL o cs ts)).map (·.1) = known ∧
     (known.zip (compileL o cs ts)).map (·.2) = compileL o cs ts ∧
-    ∀ d, d.wf = true → ByTypeSoundAt (known.zip (compileL o cs ts)) d
+    ByTypeSoundAt (known.zip (compileL o cs ts)) d
   | [], known, hk, _ => by
     rw [clsL] at hk
     cases known with
-    | nil => rw [compileL]; exact ⟨rfl, rfl, fun d _ p hp => by cases hp⟩
+    | nil => rw [compileL]; exact ⟨rfl, rfl, fun p hp => by cases hp⟩
     | cons c k => cases hk
   | t :: ts, known, hk, h => by
     rw [clsL] at hk
@@ -133,30 +129,48 @@ theorem table_spec {o : DOpts} (ho : OptsOk o) {cs : Constraints} : ∀ (ts : Li
     | nil => cases hk
     | cons c k =>
       simp only [List.map_cons, List.cons.injEq] at hk
-      obtain ⟨ih1, ih2, ih3⟩ := table_spec ho ts k hk.2 (fun t' ht' => h t' (List.mem_cons_of_mem _ ht'))
+      obtain ⟨ih1, ih2, ih3⟩ := table_spec ts k hk.2 (fun t' ht' => h t' (List.mem_cons_of_mem _ ht'))
       rw [compileL, List.zip_cons_cons, List.map_cons, List.map_cons, ih1, ih2]
-      refine ⟨rfl, rfl, fun d hw p hp v hv => ?_⟩
+      refine ⟨rfl, rfl, fun p hp v hv => ?_⟩
       rcases List.mem_cons.1 hp with rfl | hp'
-      · exact compile_byTypeSound o ho cs t c (h t (List.mem_cons_self ..)).1.inAcc hk.1
-          (h t (List.mem_cons_self ..)).2 d hw v hv
-      · exact ih3 d hw p hp' v hv
+      · have ht := h t (List.mem_cons_self ..)
+        have hacc := ht.1.acc
+        simp only at hv
+        rw [hv] at hacc
+        exact conforms_class _ _ cs t d hacc.symm c hk.1 ht.2
+      · exact ih3 p hp' v hv
 
-/-- **C13 at the level of `union()`.** Whatever method is selected for `Union[T1, …, Tn]` — `OptionalMethod`,
-    the by-type table, or the sequential method — the datum is accepted iff some alternative accepts it, i.e.
-    iff it conforms to some alternative, provided a `None`-class alternative is `None` itself and not every
-    alternative is `None`.  `float` alternatives are included: since the repair of row 3 the by-type table is
-    not selected when one of the classes is `float`. -/
-theorem C01_accept_union (o : DOpts) (ho : OptsOk o) (cs : Constraints) (hu : cs.unique = false) (ts : List Ty)
-    (hts : ∀ t ∈ ts, t.acc = true ∧ t.nouq = true ∧ (t.factoryCls = some .null → t = .null))
-    (hne : ts ≠ []) (hnn : ¬ (∀ t ∈ ts, t = .null))
-    (d : Py) (hj : d.json = true) (hw : d.wf = true) :
+/-- no alternative of known class conforms to a datum that has no JSON class (a tuple, bytes, ...) -/
+theorem conformsAny_noClass (ap : Bool) (cs : Constraints) (d : Py) (hd : d.jclass? = Option.none) :
+    ∀ (ts : List Ty) (known : List JClass), clsL ts = known.map some → (∀ t ∈ ts, t.noFloat = true) →
+    conformsAny ap false cs ts d = false
+  | [], _, _, _ => by rw [conformsAny]
+  | t :: ts, known, hk, hnf => by
+    rw [clsL] at hk
+    cases known with
+    | nil => cases hk
+    | cons c k =>
+      simp only [List.map_cons, List.cons.injEq] at hk
+      rw [conformsAny, conformsAny_noClass ap cs d hd ts k hk.2 (fun t' ht' => hnf t' (List.mem_cons_of_mem _ ht')), Bool.or_false]
+      cases hc : conforms ap false cs t d with
+      | false => rfl
+      | true =>
+        have := conforms_class ap false cs t d hc c hk.1 (hnf t (List.mem_cons_self ..))
+        rw [hd] at this; cases this
+
+/-- **C13 at the level of `union()`, at one datum.** Whatever method is selected for `Union[T1, …, Tn]` —
+    `OptionalMethod`, the by-type table, or the sequential method — the datum is accepted iff it conforms to some
+    alternative, provided each compiled alternative neither crashes on the datum nor disagrees with the specification
+    on it, a `None`-class alternative is `None` itself and not every alternative is `None`. -/
+theorem union_accepts_at (o : DOpts) (cs : Constraints) (ts : List Ty) (d : Py)
+    (halt : ∀ t ∈ ts, AltAt o cs t d)
+    (hside : ∀ t ∈ ts, t.factoryCls = some .null → t = .null)
+    (hne : ts ≠ []) (hnn : ¬ (∀ t ∈ ts, t = .null)) :
     (run (unionSel (clsL ts) (anyNull ts) (compileL o cs ts)) d).isOk
       = conformsAny o.additionalProperties false cs ts d := by
-  have halt : ∀ t ∈ ts, AltOk o cs t := fun t ht =>
-    altOk o ho cs hu t (hts t ht).1 (hts t ht).2.1
-  have hany := any_compileL ts d hw halt
+  have hany := any_compileL ts d halt
   have hseq : (run (.union (compileL o cs ts)) d).isOk = conformsAny o.additionalProperties false cs ts d := by
-    rw [isOk_val?, run, C13_sequential _ d Option.none (fun m hm => nc_compileL ts halt m hm d (jsonX_of_json.1 d hj)), firstOk_isSome, hany]
+    rw [isOk_val?, run, C13_sequential _ d Option.none (fun m hm => nc_compileL ts halt m hm), firstOk_isSome, hany]
   unfold unionSel
   simp only
   split
@@ -168,30 +182,30 @@ theorem C01_accept_union (o : DOpts) (ho : OptsOk o) (cs : Constraints) (hu : cs
     | [a, b], _ =>
       rw [compileL, compileL, compileL, clsL, clsL, clsL] at *
       simp only [anyNull, Bool.or_false, Bool.or_eq_true] at hopt
-      have ha := hts a (by simp); have hb := hts b (by simp)
+      have ha := hside a (by simp); have hb := hside b (by simp)
       rw [conformsAny, conformsAny, conformsAny, Bool.or_false]
       by_cases hca : a.factoryCls = some .null
-      · have hae : a = .null := ha.2.2 hca
+      · have hae : a = .null := ha hca
         subst hae
         by_cases hcb : b.factoryCls = some .null
         · exact absurd (fun t ht => by
             simp at ht; rcases ht with rfl | rfl
             · rfl
-            · exact hb.2.2 hcb) hnn
+            · exact hb hcb) hnn
         · have hfind : List.find? (fun p => p.1 != some JClass.null)
               ([Ty.null.factoryCls, b.factoryCls].zip [compile o cs Ty.null, compile o cs b])
               = some (b.factoryCls, compile o cs b) := by
             have hbne : (b.factoryCls != some JClass.null) = true := by simpa using hcb
-            simp [List.zip, List.find?, Ty.factoryCls, hbne]
+            simp [List.zip, Ty.factoryCls, hbne]
           simp only [hfind]
-          rw [isOk_optional, (halt b (by simp)).acc d hw, conforms]
+          rw [isOk_optional, (halt b (by simp)).acc, conforms]
       · have hfind : List.find? (fun p => p.1 != some JClass.null)
             ([a.factoryCls, b.factoryCls].zip [compile o cs a, compile o cs b])
             = some (a.factoryCls, compile o cs a) := by
           have hane : (a.factoryCls != some JClass.null) = true := by simpa using hca
-          simp [List.zip, List.find?, hane]
+          simp [List.zip, hane]
         simp only [hfind]
-        rw [isOk_optional, (halt a (by simp)).acc d hw]
+        rw [isOk_optional, (halt a (by simp)).acc]
         -- one of the two is `None`; it is not `a`
         have hbn : b = .null := by
           rcases hopt.1 with h | h
@@ -226,11 +240,27 @@ theorem C01_accept_union (o : DOpts) (ho : OptsOk o) (cs : Constraints) (hu : cs
             rcases List.mem_map.1 h1 with ⟨c, hc, hce⟩; cases hce; exact hc
           have h3 : ((clsL ts).filterMap id).contains JClass.float = true := by simpa using h2
           rw [h3] at hnofl; cases hnofl
-      obtain ⟨t1, t2, t3⟩ := table_spec ho ts _ hk (fun t ht => ⟨halt t ht, hnf t ht⟩)
-      have hc : ∃ c, d.jclass? = some c := by cases d <;> first | exact ⟨_, rfl⟩ | cases hj
-      obtain ⟨c, hc⟩ := hc
-      rw [isOk_val?, C13_byType_at _ d c (t3 d hw) (by rw [t1]; exact hnd) hc, t2, firstOk_isSome, hany]
+      obtain ⟨t1, t2, t3⟩ := table_spec ts _ hk (fun t ht => ⟨halt t ht, hnf t ht⟩)
+      cases hc : d.jclass? with
+      | some c =>
+        rw [isOk_val?, C13_byType_at _ d c t3 (by rw [t1]; exact hnd) hc, t2, firstOk_isSome, hany]
+      | none =>
+        -- a datum that is not an instance of a JSON class: rejected by the table, and conforming to nothing
+        rw [run]; simp only [hc]
+        rw [isOk_badType, conformsAny_noClass _ cs d hc ts _ hk hnf]
     · exact hseq
+
+/-- **C13 / C01 at the level of `union()`**: the entry-point form over the C01 scope of the alternatives -/
+theorem C01_accept_union (o : DOpts) (ho : OptsOk o) (cs : Constraints) (hu : cs.unique = false) (ts : List Ty)
+    (hts : ∀ t ∈ ts, t.acc = true ∧ t.nouq = true ∧ (t.factoryCls = some .null → t = .null))
+    (hne : ts ≠ []) (hnn : ¬ (∀ t ∈ ts, t = .null))
+    (d : Py) (hj : d.json = true) (hw : d.wf = true) :
+    (run (unionSel (clsL ts) (anyNull ts) (compileL o cs ts)) d).isOk
+      = conformsAny o.additionalProperties false cs ts d :=
+  union_accepts_at o cs ts d
+    (fun t ht => ⟨(no_crash o ho).1 cs t (hts t ht).1 (hts t ht).2.1 hu d (jsonX_of_json.1 d hj),
+                  (accepts_iff_conforms o ho).1 cs t (hts t ht).1 d hw⟩)
+    (fun t ht => (hts t ht).2.2) hne hnn
 
 /-- the three selections all occur -/
 example : (match unionSel (clsL [.int, .str, .list .int]) (anyNull [.int, .str, .list .int]) (compileL {} {} [.int, .str, .list .int]) with
